@@ -240,7 +240,10 @@ def check(ctx):
              'Writer.escape_str per member) escapes every GNU Make '
              'metacharacter of the lexical contexts it is designed for '
              '(shell/clean: variable values, recipes, define bodies; '
-             'function: $(call ...) arguments); keys are '
+             'function: $(call ...) arguments) and escapes nothing the reader '
+             'leaves alone there (an escape Make does not undo in a recipe '
+             'reaches the shell); every producer of run-time data for a Make '
+             'variable value is an instance of the unescaped `#`; keys are '
              'context|member|character')
     ctx.rule('SYNTAX-POSITION', 'value flow from Makefile.write through its '
              'helpers: recipe lines, define bodies and variable values are '
